@@ -628,4 +628,363 @@ theorem add_NodeInv {s : NodeIds} (h : NodeInv s) {g : Int} (hg : 0 ≤ g) :
 theorem add_neg {s : NodeIds} {g : Int} (hg : g < 0) : s.add g = (.invalid, 0, s) := by
   simp [add, hg]
 
+
+/-! ### remove -/
+
+theorem keys_inj {ks : List Int} (hs : ks.Pairwise (· < ·)) {i j : Nat} (hi : i < ks.length)
+    (hj : j < ks.length) (h : ks.getD i 0 = ks.getD j 0) : i = j := by
+  rcases Nat.lt_trichotomy i j with hlt | heq | hgt
+  · have := strictMono_of_pairwise hs hlt hj; omega
+  · exact heq
+  · have := strictMono_of_pairwise hs hgt hi; omega
+
+theorem keys_getD (s : NodeIds) {i : Nat} (hi : i < s.sorted.length) :
+    s.keys.getD i 0 = (s.sorted[i]).1 := by
+  simp [keys, List.getD_eq_getElem?_getD, hi]
+
+theorem validSlot_iff {s : NodeIds} {node : Int} :
+    s.validSlot node = true ↔ 0 ≤ node ∧ 0 ≤ s.global.getD node.toNat (-1) := by
+  simp only [validSlot, Bool.and_eq_true, decide_eq_true_eq]
+  constructor
+  · rintro ⟨⟨h1, _⟩, h3⟩; exact ⟨by omega, h3⟩
+  · rintro ⟨h1, h3⟩
+    have := lt_length_of_getD_nonneg h3
+    simp only [NodeIds.max]
+    refine ⟨⟨by omega, by omega⟩, h3⟩
+
+/-- under `NodeInv` the binary search for the global of a valid slot hits the entry of that slot -/
+theorem search_valid {s : NodeIds} (h : NodeInv s) {v : Nat} (hv : 0 ≤ s.global.getD v (-1)) :
+    ∃ loc, searchGlob s.keys (s.global.getD v (-1)) = some loc ∧ ∃ hl : loc < s.sorted.length,
+      s.sorted[loc] = (s.global.getD v (-1), v) := by
+  have hmem := h.srt.complete v hv
+  have hk : s.global.getD v (-1) ∈ s.keys := List.mem_map.2 ⟨_, hmem, rfl⟩
+  obtain ⟨loc, hloc⟩ := searchGlob_isSome_of_mem h.srt.sorted hk
+  obtain ⟨hl, hkey⟩ := searchGlob_some hloc
+  have hl' : loc < s.sorted.length := by simpa [keys] using hl
+  refine ⟨loc, hloc, hl', ?_⟩
+  obtain ⟨k, hk, hkeq⟩ := List.mem_iff_getElem.1 hmem
+  have : k = loc := by
+    apply keys_inj h.srt.sorted (by simpa [keys] using hk) hl
+    rw [keys_getD s hk, hkeq, hkey]
+  subst this
+  exact hkeq
+
+theorem erase_SortedInv {s : NodeIds} (h : NodeInv s) {v loc : Nat} (hv : 0 ≤ s.global.getD v (-1))
+    (hl : loc < s.sorted.length) (hloc : s.sorted[loc] = (s.global.getD v (-1), v))
+    {t : NodeIds} (hg : t.global = s.global.set v s.blank) (hs : t.sorted = s.sorted.eraseIdx loc)
+    (hn : t.n = s.n - 1) : SortedInv t := by
+  obtain ⟨hfree, hsrt⟩ := h
+  have hvlen : v < s.global.length := lt_length_of_getD_nonneg hv
+  have hbneg : s.blank < 0 := by
+    obtain ⟨⟨l, hc, _, _⟩, _⟩ := hfree
+    exact hc.head_neg
+  refine ⟨?_, ?_, ?_, ?_⟩
+  · simp only [keys, hs]
+    exact hsrt.sorted.sublist ((List.eraseIdx_sublist _ _).map _)
+  · intro p hp
+    rw [hs] at hp
+    obtain ⟨i, hi, hne, rfl⟩ := List.mem_eraseIdx_iff_getElem.1 hp
+    obtain ⟨h1, h2⟩ := hsrt.sound _ (List.getElem_mem hi)
+    have hpv : (s.sorted[i]).2 ≠ v := by
+      intro e
+      apply hne
+      apply keys_inj hsrt.sorted (by simpa [keys] using hi) (by simpa [keys] using hl)
+      rw [keys_getD s hi, keys_getD s hl, hloc, ← h1, e]
+    rw [hg, getD_set_ne hpv]
+    exact ⟨h1, h2⟩
+  · intro w hw
+    rw [hg] at hw ⊢
+    have hwv : w ≠ v := by
+      intro e; subst e
+      rw [getD_set_self hvlen] at hw; omega
+    rw [getD_set_ne hwv] at hw ⊢
+    obtain ⟨k, hk, hkeq⟩ := List.mem_iff_getElem.1 (hsrt.complete w hw)
+    rw [hs]
+    refine List.mem_eraseIdx_iff_getElem.2 ⟨k, hk, ?_, hkeq⟩
+    intro e; subst e
+    rw [hloc] at hkeq
+    exact hwv (by simpa using (congrArg Prod.snd hkeq).symm)
+  · rw [hs, hn, List.length_eraseIdx_of_lt hl, hsrt.len]
+
+theorem remove_eq {s : NodeIds} {node : Int} {loc : Nat} (hv : s.validSlot node = true)
+    (hloc : searchGlob s.keys (s.global.getD node.toNat (-1)) = some loc) :
+    s.remove node = (.ok, (({ s with sorted := s.sorted.eraseIdx loc }).pushUnused
+      (s.global.getD node.toNat (-1))).freeSlot node.toNat) := by
+  simp only [remove, hv, Bool.not_true, Bool.false_eq_true, if_false, hloc]
+
+theorem removeWithoutGlobal_eq {s : NodeIds} {node : Int} {loc : Nat} (hv : s.validSlot node = true)
+    (hloc : searchGlob s.keys (s.global.getD node.toNat (-1)) = some loc) :
+    s.removeWithoutGlobal node = (.ok, ({ s with sorted := s.sorted.eraseIdx loc }).freeSlot node.toNat) := by
+  simp only [removeWithoutGlobal, hv, Bool.not_true, Bool.false_eq_true, if_false, hloc]
+
+theorem remove_invalid {s : NodeIds} {node : Int} (hv : s.validSlot node = false) :
+    s.remove node = (.invalid, s) := by simp [remove, hv]
+
+theorem remove_NodeInv {s : NodeIds} (h : NodeInv s) {node : Int} (hv : s.validSlot node = true) :
+    (s.remove node).1 = .ok ∧ NodeInv (s.remove node).2 := by
+  obtain ⟨_, hv2⟩ := validSlot_iff.1 hv
+  obtain ⟨loc, hloc, hl, hat⟩ := search_valid h hv2
+  rw [remove_eq hv hloc]
+  refine ⟨rfl, ⟨?_, ?_⟩⟩
+  · exact (freeSlot_FreeInv h.free hv2).congr rfl rfl rfl
+  · exact erase_SortedInv h hv2 hl hat rfl rfl rfl
+
+theorem removeWithoutGlobal_NodeInv {s : NodeIds} (h : NodeInv s) {node : Int} (hv : s.validSlot node = true) :
+    (s.removeWithoutGlobal node).1 = .ok ∧ NodeInv (s.removeWithoutGlobal node).2 := by
+  obtain ⟨_, hv2⟩ := validSlot_iff.1 hv
+  obtain ⟨loc, hloc, hl, hat⟩ := search_valid h hv2
+  rw [removeWithoutGlobal_eq hv hloc]
+  refine ⟨rfl, ⟨?_, ?_⟩⟩
+  · exact (freeSlot_FreeInv h.free hv2).congr rfl rfl rfl
+  · exact erase_SortedInv h hv2 hl hat rfl rfl rfl
+
+
+/-! ### the abstract state: a finite map `global id ↦ slot` and a pool of reusable ids -/
+
+/-- the slot holding global `g` (first match in `global[]`; unique under `NodeInv`) -/
+def NodeIds.liveSlot (s : NodeIds) (g : Int) : Option Nat := if g < 0 then none else s.global.idxOf? g
+
+/-- where fresh ids start: `new_n_global`, or `n` while it is still uninitialised (`REF_EMPTY`),
+    exactly what `ref_node_next_global` would use -/
+def NodeIds.effNew (s : NodeIds) : Int := if s.newN = -1 then (s.n : Int) else s.newN
+
+structure Abs where
+  live : Int → Option Nat
+  pool : Int → Prop
+
+/-- `abs s = (live : global ↦ slot, pool = unused ∪ [new_n_global, ∞))` -/
+def NodeIds.abs (s : NodeIds) : Abs := ⟨s.liveSlot, fun g => g ∈ s.unusedStk ∨ s.effNew ≤ g⟩
+
+theorem Abs.ext' {a b : Abs} (h1 : ∀ g, a.live g = b.live g) (h2 : ∀ g, a.pool g ↔ b.pool g) : a = b := by
+  cases a; cases b
+  simp only [Abs.mk.injEq]
+  exact ⟨funext h1, funext fun g => propext (h2 g)⟩
+
+theorem live_unique {s : NodeIds} (h : NodeInv s) {v w : Nat} (hv : 0 ≤ s.global.getD v (-1))
+    (he : s.global.getD v (-1) = s.global.getD w (-1)) : v = w := by
+  obtain ⟨loc, hloc, hl, hat⟩ := search_valid h hv
+  obtain ⟨loc', hloc', hl', hat'⟩ := search_valid h (v := w) (by rw [← he]; exact hv)
+  rw [← he, hloc] at hloc'
+  simp only [Option.some.injEq] at hloc'
+  subst hloc'
+  rw [hat] at hat'
+  exact (congrArg Prod.snd hat')
+
+theorem liveSlot_eq_some_iff {s : NodeIds} (h : NodeInv s) {g : Int} {v : Nat} :
+    s.liveSlot g = some v ↔ 0 ≤ g ∧ s.global.getD v (-1) = g := by
+  unfold NodeIds.liveSlot
+  split
+  · rename_i hneg
+    constructor
+    · intro h; exact absurd h (by simp)
+    · rintro ⟨h1, _⟩; omega
+  · rename_i hnn
+    rw [List.idxOf?_eq_some_iff]
+    constructor
+    · rintro ⟨hl, heq, _⟩
+      exact ⟨by omega, by rw [getD_eq_getElem' hl]; exact heq⟩
+    · rintro ⟨h0, heq⟩
+      have hl : v < s.global.length := lt_length_of_getD_nonneg (by rw [heq]; exact h0)
+      refine ⟨hl, by rw [← getD_eq_getElem' hl]; exact heq, ?_⟩
+      intro j hj hjeq
+      have hjl : j < s.global.length := by omega
+      have : j = v := live_unique h (by rw [getD_eq_getElem' hjl, hjeq]; exact h0)
+        (by rw [getD_eq_getElem' hjl, hjeq, heq])
+      omega
+
+theorem liveSlot_eq_none_iff {s : NodeIds} (h : NodeInv s) {g : Int} :
+    s.liveSlot g = none ↔ ∀ v, ¬ (0 ≤ g ∧ s.global.getD v (-1) = g) := by
+  constructor
+  · intro hn v hv
+    rw [← liveSlot_eq_some_iff h] at hv
+    rw [hn] at hv; exact absurd hv (by simp)
+  · intro hall
+    cases hl : s.liveSlot g with
+    | none => rfl
+    | some v => exact absurd ((liveSlot_eq_some_iff h).1 hl) (hall v)
+
+theorem mem_keys_iff {s : NodeIds} (h : NodeInv s) {g : Int} :
+    g ∈ s.keys ↔ ∃ v, 0 ≤ g ∧ s.global.getD v (-1) = g := by
+  constructor
+  · intro hm
+    obtain ⟨p, hp, rfl⟩ := List.mem_map.1 hm
+    obtain ⟨h1, h2⟩ := h.srt.sound p hp
+    exact ⟨p.2, h2, h1⟩
+  · rintro ⟨v, h0, heq⟩
+    have := h.srt.complete v (by rw [heq]; exact h0)
+    rw [heq] at this
+    exact List.mem_map.2 ⟨_, this, rfl⟩
+
+theorem search_none_iff {s : NodeIds} (h : NodeInv s) {g : Int} :
+    searchGlob s.keys g = none ↔ s.liveSlot g = none := by
+  rw [liveSlot_eq_none_iff h]
+  constructor
+  · intro hn v hv
+    exact searchGlob_none h.srt.sorted hn ((mem_keys_iff h).2 ⟨v, hv⟩)
+  · intro hall
+    cases hs : searchGlob s.keys g with
+    | none => rfl
+    | some loc =>
+      obtain ⟨hl, hk⟩ := searchGlob_some hs
+      have : g ∈ s.keys := by rw [← hk, getD0_eq hl]; exact List.getElem_mem hl
+      obtain ⟨v, hv⟩ := (mem_keys_iff h).1 this
+      exact absurd hv (hall v)
+
+/-- `ref_node_local` returns the slot holding `g` iff `g` is live -/
+theorem localOf_eq {s : NodeIds} (h : NodeInv s) (g : Int) :
+    s.localOf g = match s.liveSlot g with
+      | some v => (.ok, (v : Int))
+      | none => (.not_found, -1) := by
+  unfold localOf
+  cases hs : searchGlob s.keys g with
+  | none => rw [(search_none_iff h).1 hs]
+  | some loc =>
+    obtain ⟨hl, hk⟩ := searchGlob_some hs
+    have hl' : loc < s.sorted.length := by simpa [keys] using hl
+    have hgd : s.sorted.getD loc (0, 0) = s.sorted[loc] := by simp [List.getD_eq_getElem?_getD, hl']
+    obtain ⟨h1, h2⟩ := h.srt.sound _ (List.getElem_mem hl')
+    rw [keys_getD s hl'] at hk
+    have : s.liveSlot g = some (s.sorted[loc]).2 :=
+      (liveSlot_eq_some_iff h).2 ⟨by rw [← hk]; exact h2, by rw [h1, hk]⟩
+    rw [this]
+    simp only [hgd]
+
+
+/-! ### add / remove refine map insert / erase -/
+
+theorem grow_getD_eq_iff (s : NodeIds) {v : Nat} {x : Int} (hx : 0 ≤ x) :
+    s.grow.global.getD v (-1) = x ↔ s.global.getD v (-1) = x := by
+  by_cases hlt : v < s.max
+  · rw [grow_getD_old s hlt]
+  · have h1 := grow_getD_new s (Nat.le_of_not_lt hlt)
+    have h2 := getD_neg_of_ge (g := s.global) (v := v) (Nat.le_of_not_lt hlt)
+    constructor <;> intro h <;> omega
+
+theorem add_hit_live {s : NodeIds} (h : NodeInv s) {g : Int} {loc : Nat}
+    (hm : searchGlob s.keys g = some loc) : s.liveSlot g = some (s.sorted.getD loc (0, 0)).2 := by
+  have := localOf_eq h g
+  unfold localOf at this
+  rw [hm] at this
+  cases hl : s.liveSlot g with
+  | none => rw [hl] at this; simp at this
+  | some v =>
+    rw [hl] at this
+    simp only [Prod.mk.injEq, true_and] at this
+    congr 1; omega
+
+theorem add_live {s : NodeIds} (h : NodeInv s) {g : Int} (hg : 0 ≤ g) (x : Int) :
+    (s.add g).2.2.liveSlot x = if x = g then some (s.add g).2.1 else s.liveSlot x := by
+  cases hm : searchGlob s.keys g with
+  | some loc =>
+    rw [add_hit hg hm]
+    split
+    · rename_i hx; subst hx; exact add_hit_live h hm
+    · rfl
+  | none =>
+    have hinv := (add_miss_NodeInv h hg hm)
+    have hnotlive := (liveSlot_eq_none_iff h).1 ((search_none_iff h).1 hm)
+    rw [add_miss hg hm] at hinv ⊢
+    obtain ⟨hinv, hnode, hneg⟩ := hinv
+    simp only at hnode hneg ⊢
+    generalize next2index s.grow.blank = node at *
+    have hnlen : node < s.grow.global.length := by simpa [NodeIds.max] using hnode
+    apply Option.ext
+    intro v
+    rw [liveSlot_eq_some_iff hinv]
+    simp only
+    by_cases hvn : v = node
+    · subst hvn
+      rw [getD_set_self hnlen]
+      split
+      · rename_i hx; subst hx; simp [hg]
+      · rename_i hx
+        have : ¬ s.liveSlot x = some v := by
+          intro hl
+          obtain ⟨h0, heq⟩ := (liveSlot_eq_some_iff h).1 hl
+          have := (grow_getD_eq_iff s h0).2 heq
+          omega
+        constructor
+        · rintro ⟨_, he⟩; exact absurd he.symm hx
+        · intro hl; exact absurd hl this
+    · rw [getD_set_ne hvn]
+      split
+      · rename_i hx; subst hx
+        constructor
+        · rintro ⟨h0, he⟩
+          exact absurd ⟨h0, (grow_getD_eq_iff s h0).1 he⟩ (hnotlive v)
+        · intro he
+          simp only [Option.some.injEq] at he
+          exact absurd he.symm hvn
+      · rw [liveSlot_eq_some_iff h]
+        constructor
+        · rintro ⟨h0, he⟩; exact ⟨h0, (grow_getD_eq_iff s h0).1 he⟩
+        · rintro ⟨h0, he⟩; exact ⟨h0, (grow_getD_eq_iff s h0).2 he⟩
+
+/-- frame: `add` does not move any slot that was live -/
+theorem add_frame {s : NodeIds} (h : NodeInv s) {g : Int} (hg : 0 ≤ g) {v : Nat}
+    (hv : 0 ≤ s.global.getD v (-1)) : (s.add g).2.2.global.getD v (-1) = s.global.getD v (-1) := by
+  cases hm : searchGlob s.keys g with
+  | some loc => rw [add_hit hg hm]
+  | none =>
+    obtain ⟨_, _, hneg⟩ := add_miss_NodeInv h hg hm
+    rw [add_miss hg hm] at hneg ⊢
+    simp only at hneg ⊢
+    have hlt : v < s.max := lt_length_of_getD_nonneg hv
+    have hne : v ≠ next2index s.grow.blank := by
+      intro e; rw [← e, grow_getD_old s hlt] at hneg; omega
+    rw [getD_set_ne hne, grow_getD_old s hlt]
+
+theorem remove_fields {s : NodeIds} (h : NodeInv s) {node : Int} (hv : s.validSlot node = true) :
+    (s.remove node).2.global = s.global.set node.toNat s.blank ∧
+    (s.remove node).2.blank = index2next node.toNat ∧
+    (s.remove node).2.n = s.n - 1 ∧
+    (s.remove node).2.unusedStk = s.global.getD node.toNat (-1) :: s.unusedStk ∧
+    (s.remove node).2.newN = s.newN ∧ (s.remove node).2.oldN = s.oldN := by
+  obtain ⟨_, hv2⟩ := validSlot_iff.1 hv
+  obtain ⟨loc, hloc, _, _⟩ := search_valid h hv2
+  rw [remove_eq hv hloc]
+  simp [freeSlot, pushUnused]
+
+theorem freed_live {s t : NodeIds} (h : NodeInv s) (ht : NodeInv t) {v : Nat}
+    (hv : 0 ≤ s.global.getD v (-1)) (hg : t.global = s.global.set v s.blank) (x : Int) :
+    t.liveSlot x = if x = s.global.getD v (-1) then none else s.liveSlot x := by
+  have hvlen : v < s.global.length := lt_length_of_getD_nonneg hv
+  have hbneg : s.blank < 0 := by
+    obtain ⟨⟨l, hc, _, _⟩, _⟩ := h.free
+    exact hc.head_neg
+  apply Option.ext
+  intro w
+  rw [liveSlot_eq_some_iff ht, hg]
+  by_cases hwv : w = v
+  · subst hwv
+    rw [getD_set_self hvlen]
+    split
+    · constructor
+      · rintro ⟨h0, he⟩; omega
+      · intro h; exact absurd h (by simp)
+    · rename_i hx
+      rw [liveSlot_eq_some_iff h]
+      constructor
+      · rintro ⟨h0, he⟩; omega
+      · rintro ⟨_, he⟩; exact absurd he.symm hx
+  · rw [getD_set_ne hwv]
+    split
+    · rename_i hx; subst hx
+      constructor
+      · rintro ⟨_, he⟩
+        exact absurd (live_unique h hv he.symm).symm hwv
+      · intro h; exact absurd h (by simp)
+    · rw [liveSlot_eq_some_iff h]
+
+theorem remove_live {s : NodeIds} (h : NodeInv s) {node : Int} (hv : s.validSlot node = true) (x : Int) :
+    (s.remove node).2.liveSlot x =
+      if x = s.global.getD node.toNat (-1) then none else s.liveSlot x := by
+  obtain ⟨_, hv2⟩ := validSlot_iff.1 hv
+  exact freed_live h (remove_NodeInv h hv).2 hv2 (remove_fields h hv).1 x
+
+/-- frame: `remove` does not touch any other slot -/
+theorem remove_frame {s : NodeIds} (h : NodeInv s) {node : Int} (hv : s.validSlot node = true) {w : Nat}
+    (hw : w ≠ node.toNat) : (s.remove node).2.global.getD w (-1) = s.global.getD w (-1) := by
+  rw [(remove_fields h hv).1, getD_set_ne hw]
+
 end Refine.Model.NodeIds
